@@ -80,8 +80,11 @@ class Universe:
         self.oid = {f: md5(self.content[f]) for f in self.files}
         # relative paths inside each directory (a file listed by two dirs gets different paths)
         self.relpaths: dict[str, dict[str, str]] = {}
-        for d, fs in self.dirs.items():
+        for n_, (d, fs) in enumerate(self.dirs.items()):
             names = rng.sample(NAME_POOL, len(fs))
+            if seed % 3 == 2 and n_ == 0 and len(fs) >= 2:
+                # two names that differ in their Unicode normalisation form only (distinct files on Linux)
+                names[:2] = ["sub/caf\u00e9.txt", "sub/cafe\u0301.txt"]
             self.relpaths[d] = dict(zip(names, fs))  # relpath -> file id
             b = canonical_dir_bytes({rel: self.oid[f] for rel, f in self.relpaths[d].items()})
             self.content[d] = b
